@@ -41,7 +41,9 @@ import (
 	sdk "github.com/cosmos/cosmos-sdk/types"
 	"github.com/cosmos/cosmos-sdk/types/tx/signing"
 	authsigning "github.com/cosmos/cosmos-sdk/x/auth/signing"
+	authtypes "github.com/cosmos/cosmos-sdk/x/auth/types"
 	banktypes "github.com/cosmos/cosmos-sdk/x/bank/types"
+	govtypes "github.com/cosmos/cosmos-sdk/x/gov/types"
 	stakingtypes "github.com/cosmos/cosmos-sdk/x/staking/types"
 	"github.com/ethereum/go-ethereum/common"
 	"github.com/evmos/evmos/v16/encoding"
@@ -57,6 +59,7 @@ import (
 	dogfoodtypes "github.com/ExocoreNetwork/exocore/x/dogfood/types"
 	operatortypes "github.com/ExocoreNetwork/exocore/x/operator/types"
 	oraclemodule "github.com/ExocoreNetwork/exocore/x/oracle"
+	oraclekeeper "github.com/ExocoreNetwork/exocore/x/oracle/keeper"
 	oracletypes "github.com/ExocoreNetwork/exocore/x/oracle/types"
 )
 
@@ -68,7 +71,7 @@ func init() {
 // ---- script ----------------------------------------------------------------------------------
 
 type c08Op struct {
-	Kind string `json:"k"`           // send | ethsend | price | regop | optin | deposit | delegate | undelegate | slash | avstask | avsresult
+	Kind string `json:"k"`           // send | ethsend | price | oparams | dparams | avschallenge | regop | optin | deposit | delegate | undelegate | slash | avstask | avsresult
 	A    int    `json:"a,omitempty"` // actor index (account / staker / validator)
 	B    int    `json:"b,omitempty"` // second index (operator / asset / feeder)
 	C    int    `json:"c,omitempty"` // third index (asset)
@@ -153,8 +156,16 @@ func c08GenScript(seed int64, nblocks int) []c08Block {
 				b.Ops = append(b.Ops, c08Op{Kind: "regop", A: r.Intn(c08NAcc)})
 			case x < 56:
 				b.Ops = append(b.Ops, c08Op{Kind: "optin", A: r.Intn(c08NAcc)})
-			case x < 68:
+			case x < 62:
 				b.Ops = append(b.Ops, c08Op{Kind: "deposit", A: r.Intn(c08NStakers), C: r.Intn(c08NAssets), Amt: 1 + r.Int63n(90_000_000)})
+			case x < 64:
+				// oracle UpdateParams (authority = gov): new MaxSizePrices, or a new token with its own feeder (interval 7,
+				// starting 3 blocks ahead): nobody reports for it, so every one of its rounds is sealed as failed
+				b.Ops = append(b.Ops, c08Op{Kind: "oparams", A: r.Intn(4), Amt: 40 + r.Int63n(60)})
+			case x < 66:
+				b.Ops = append(b.Ops, c08Op{Kind: "dparams", A: r.Intn(3)})
+			case x < 68:
+				b.Ops = append(b.Ops, c08Op{Kind: "avschallenge", A: r.Intn(64), B: r.Intn(2), C: r.Intn(c08NAcc)})
 			case x < 80:
 				b.Ops = append(b.Ops, c08Op{Kind: "delegate", A: r.Intn(4), B: r.Intn(2 + c08NAcc), C: r.Intn(c08NAssets), Amt: 1 + r.Int63n(30_000_000)})
 			case x < 88:
@@ -603,6 +614,38 @@ func (w *c08World) exec(op c08Op) c08TxObs {
 			env.App.StakingKeeper.SlashWithInfractionReason(ctx, env.ConsKeys[op.A].ToConsAddr(), ctx.BlockHeight()-1, 100,
 				sdk.NewDecWithPrec(op.Amt, 2), stakingtypes.Infraction_INFRACTION_DOWNTIME)
 			return nil
+		})
+	case "oparams":
+		return w.keeperOp(func(ctx sdk.Context) error {
+			cur := env.App.OracleKeeper.GetParams(ctx)
+			upd := oracletypes.Params{MaxSizePrices: int32(op.Amt)}
+			if op.A == 0 && len(cur.Tokens) < 6 {
+				n := len(cur.Tokens)
+				upd.Tokens = []*oracletypes.Token{{Name: fmt.Sprintf("C08T%d", n), ChainID: 1, ContractAddress: "0x", Decimal: 8, Active: true}}
+				upd.TokenFeeders = []*oracletypes.TokenFeeder{{TokenID: uint64(n), RuleID: 1, StartRoundID: 1,
+					StartBaseBlock: uint64(ctx.BlockHeight()) + 3, Interval: 7}}
+			}
+			_, err := oraclekeeper.NewMsgServerImpl(env.App.OracleKeeper).UpdateParams(sdk.WrapSDKContext(ctx),
+				&oracletypes.MsgUpdateParams{Authority: authtypes.NewModuleAddress(govtypes.ModuleName).String(), Params: upd})
+			return err
+		})
+	case "dparams":
+		return w.keeperOp(func(ctx sdk.Context) error {
+			p := env.App.StakingKeeper.GetDogfoodParams(ctx)
+			p.MaxValidators = []uint32{1, 2, 5}[op.A]
+			_, err := env.App.StakingKeeper.UpdateParams(sdk.WrapSDKContext(ctx),
+				&dogfoodtypes.MsgUpdateParams{Authority: authtypes.NewModuleAddress(govtypes.ModuleName).String(), Params: p})
+			return err
+		})
+	case "avschallenge":
+		return w.keeperOp(func(ctx sdk.Context) error {
+			if len(w.tasks) == 0 {
+				return fmt.Errorf("no task")
+			}
+			t := w.tasks[op.A%len(w.tasks)]
+			a := w.avss[t.AVS]
+			return env.App.AVSManagerKeeper.SetTaskChallengedInfo(ctx, t.ID, w.env.Operators[a.Ops[op.B%len(a.Ops)]].String(),
+				sdk.AccAddress(env.AccAddrs[op.C].Bytes()).String(), common.HexToAddress(a.TaskAddr))
 		})
 	case "avstask":
 		return w.keeperOp(func(ctx sdk.Context) error { return w.avsTask(ctx, op) })
